@@ -173,7 +173,7 @@ CLAIMS = {
              "input validation converts to CSC (no other sparse format reaches a kernel); "
              "float32 flag plumbing is under C11; solver objects store no state. Equality of "
              "converged results is not decided."
-             " The dense and CSC copies of every solver kernel (coordinate / block epochs, gradient builders, prox-Newton direction and line search) and the CSC helper functions are lifted on a 3x3 design with structural zeros (and an empty column for the helpers) and must leave equal terms in coefficients, model fit and returned arrays. spectral_norm of an all-empty block returns 0, as the dense norm does.",
+             " The dense and CSC copies of every solver kernel (coordinate / block epochs, gradient builders, prox-Newton direction and line search) and the CSC helper functions are lifted on a 3x3 design with structural zeros (and an empty column for the helpers) and must leave equal terms in coefficients, model fit and returned arrays. spectral_norm of an all-empty block returns 0, as the dense norm does. Every solver that reads X.indptr / X.indices is entered through a path that converts sparse X to CSC or refuses other formats.",
         design_ref="DESIGN.md §3.2 R-CSC, §4 C10",
         note="Kernel-level dense/sparse agreement of formulas is decided under C06 (datafit "
              "accessors).",
